@@ -123,3 +123,40 @@ func zzRunSym(tag string, cfg zzCfg) *zzSeq {
 	}
 	return s
 }
+
+func init() { vRegister("ZZ_C17_Saturated", ZZ_C17_Saturated) }
+
+// ZZ_C17_Saturated — dropping reads never changes what any cache operation returns: the read buffer is kept
+// saturated (16 recorded reads in the only stripe, drains prevented by holding the eviction lock in-package), then
+// every read and write operation must still return exactly what the oracle says; after the lock is released and
+// maintenance runs, the contents still agree.
+func ZZ_C17_Saturated() {
+	cfg := zzCfgFromParams()
+	s := zzNewSeqD(cfg, "c17c", true)
+	c := s.env.c
+	s.env.clk.now = 1 << 32
+	s.step(zzOpSet, 1, "c17c.prefix")
+	s.step(zzOpSet, 2, "c17c.prefix")
+	c.cache.evictionMutex.Lock()
+	for i := 0; i < 24; i++ {
+		s.step(zzOpGetIfPresent, 1+i%2, "c17c.fill")
+	}
+	if c.cache.skipReadBuffer() {
+		vAssert(c.cache.readBuffer.Len() == 0, "c17c.read_buffer_unused_while_frequency_tracking_is_off")
+	} else {
+		vAssert(c.cache.readBuffer.Len() == 16, "c17c.read_buffer_holds_exactly_its_capacity")
+	}
+	ops := []int{zzOpGetIfPresent, zzOpGetEntry, zzOpGetEntryQuietly, zzOpSet, zzOpSetIfAbsent, zzOpComputeWrite, zzOpComputeCancel,
+		zzOpComputeIfAbsentWrite, zzOpComputeIfPresentWrite, zzOpInvalidate, zzOpGetLoadOK, zzOpGetLoadNotFound}
+	for i := 0; i < vParam("steps"); i++ {
+		op := ops[vChoice("op", len(ops))]
+		k := 1 + vChoice("key", 3)
+		vScenario(zzOpNames[op])
+		s.step(op, k, "c17c")
+		s.observe("c17c")
+	}
+	c.cache.evictionMutex.Unlock()
+	s.step(zzOpCleanUp, 1, "c17c.cleanup")
+	s.observe("c17c.final")
+	vAssert(c.cache.readBuffer.Len() == 0, "c17c.recorded_reads_delivered_at_quiescence")
+}
